@@ -16,6 +16,9 @@ pub enum Piece {
     AnyUntilPrompt,
     /// `<idx> | <file>:<line>:<col>  <raw>` with free padding
     Listing { idx: usize, loc: String, raw: String },
+    /// a state display, compared by content: `current stack: N` and one `stack I: [a, b]` line per
+    /// stack, in any order; an empty stack may be shown or left out; up to the next prompt
+    StateDump { cur: usize, stacks: std::collections::BTreeMap<usize, Vec<String>> },
 }
 
 pub struct Expect {
@@ -98,6 +101,66 @@ pub fn walk(t: &[u8], from: usize, pieces: &[Expect]) -> Result<(usize, Vec<bool
                 }
                 if n == 0 && matches!(e.piece, Piece::BlockUntilPrompt) {
                     return fail("at least one line of text".to_string(), pos);
+                }
+            }
+            Piece::StateDump { cur, stacks } => {
+                let start = pos;
+                let mut shown_cur: Option<usize> = None;
+                let mut shown: std::collections::BTreeMap<usize, Vec<String>> = std::collections::BTreeMap::new();
+                let mut bad: Option<String> = None;
+                while !t[pos..].starts_with(PROMPT) {
+                    let l = match line_at(t, pos) {
+                        Some(l) => l,
+                        None => break,
+                    };
+                    pos += l.len();
+                    let text = String::from_utf8_lossy(l).trim_end_matches('\n').to_string();
+                    if let Some(n) = text.strip_prefix("current stack: ") {
+                        match (n.trim().parse::<usize>(), shown_cur) {
+                            (Ok(n), None) => shown_cur = Some(n),
+                            _ => bad = Some(format!("unexpected line {:?}", text)),
+                        }
+                    } else if let Some(rest) = text.strip_prefix("stack ") {
+                        let ok = (|| {
+                            let (i, list) = rest.split_once(": ")?;
+                            let i: usize = i.parse().ok()?;
+                            let inner = list.strip_prefix('[')?.strip_suffix(']')?;
+                            let items: Vec<String> = if inner.is_empty() { Vec::new() } else { inner.split(", ").map(|x| x.to_string()).collect() };
+                            if shown.insert(i, items).is_some() {
+                                return None;
+                            }
+                            Some(())
+                        })();
+                        if ok.is_none() {
+                            bad = Some(format!("unexpected line {:?}", text));
+                        }
+                    } else {
+                        bad = Some(format!("unexpected line {:?}", text));
+                    }
+                }
+                if bad.is_none() {
+                    if shown_cur != Some(*cur) {
+                        bad = Some(format!("selected stack shown as {:?}", shown_cur));
+                    }
+                    for (i, v) in &shown {
+                        let want = stacks.get(i).cloned().unwrap_or_default();
+                        if *v != want {
+                            bad = Some(format!("stack {} shown as {:?}", i, v));
+                        }
+                    }
+                    for (i, v) in stacks {
+                        if !v.is_empty() && !shown.contains_key(i) {
+                            bad = Some(format!("stack {} not shown", i));
+                        }
+                    }
+                }
+                if let Some(b) = bad {
+                    let nonempty: Vec<String> = stacks.iter().filter(|(_, v)| !v.is_empty()).map(|(i, v)| format!("stack {}: {:?}", i, v)).collect();
+                    return Err((
+                        e.clause.to_string(),
+                        format!("piece {} ({}): selected stack {} ; {}", k, e.note, cur, nonempty.join(" ; ")),
+                        format!("{} ; displayed text at byte {}: {:?}", b, start, show(t, start)),
+                    ));
                 }
             }
             Piece::Listing { idx, loc, raw } => {
